@@ -75,14 +75,32 @@ theorem notes_perm_invariant (main : String) (files files' : List (String × Str
         simp at hnd
   rw [heq]
 
-/-- Counterexample with sub-notes ON and two NOTES.txt files: the text depends on the
-iteration order of the map (known finding C05:subnotes-order). -/
-theorem counterexample_subnotes_order :
-    (extractNotes true "p/templates/NOTES.txt"
-        [("p/templates/NOTES.txt", ['A']), ("p/charts/s/templates/NOTES.txt", ['B'])]).1 ≠
-    (extractNotes true "p/templates/NOTES.txt"
-        [("p/charts/s/templates/NOTES.txt", ['B']), ("p/templates/NOTES.txt", ['A'])]).1 := by
-  decide
+/-- With sub-notes ON too: the files are visited in path order, so the notes text (and the
+remaining files) are a function of the *set* of rendered files.  (On the pinned tree the text
+depended on the map's iteration order: repaired in /repo, see known_findings.json.) -/
+theorem notes_sorted_perm_invariant (subNotes : Bool) (main : String) (files files' : List (String × Str))
+    (hn : (files.map (·.1)).Nodup) (hp : files.Perm files') :
+    extractNotesSorted subNotes main files = extractNotesSorted subNotes main files' := by
+  unfold extractNotesSorted
+  congr 1
+  apply mergeSort_perm_invariant keyLe _ _ files files' _ hp
+  · intro a b c h1 h2
+    simp only [keyLe, decide_eq_true_eq] at *
+    exact String.le_trans h1 h2
+  · intro a b
+    simp only [keyLe, Bool.or_eq_true, decide_eq_true_eq]
+    exact String.le_total a.1 b.1
+  · intro a b ha hb h1 h2
+    simp only [keyLe, decide_eq_true_eq] at h1 h2
+    exact eq_of_nodup_keys files hn a b ha hb (String.le_antisymm h1 h2)
+
+/-- the two orders of the old counterexample now give the same text -/
+example :
+    (extractNotesSorted true "p/templates/NOTES.txt"
+        [("p/templates/NOTES.txt", ['A']), ("p/charts/s/templates/NOTES.txt", ['B'])]).1 =
+    (extractNotesSorted true "p/templates/NOTES.txt"
+        [("p/charts/s/templates/NOTES.txt", ['B']), ("p/templates/NOTES.txt", ['A'])]).1 :=
+  congrArg Prod.fst (notes_sorted_perm_invariant true _ _ _ (by decide) (List.Perm.swap _ _ _))
 
 /-! ## 2. What chart content can reach: regenerated function-map facts -/
 
